@@ -1172,3 +1172,39 @@ def repeat_count(position, n, kind="ident"):
             body = f"ENTITY a;\n  v : INTEGER;\nWHERE\n  w1 : v + SIZEOF({a2}) > 0;\nEND_ENTITY;\n"
     return f"SCHEMA r;\n{decl_e}{body}END_SCHEMA;\n".encode()
 
+
+def tail_ring(tail, ring, item="missing", clause="REFERENCE", late_at=0):
+    """item-wise import through a tail of whole-schema USE clauses that leads into a ring of schemas which does NOT contain the
+    interfaced schema: app --(clause FROM t0 (x))--> t0 -> t1 … -> r0 -> r1 … -> r0.
+    item: "missing" (x declared nowhere), "late" (declared in a schema that ring member `late_at` USEs *after* its ring edge:
+    valid input), "early" (declared in the first ring schema: found before the ring closes), "tail" (declared in the last tail schema).
+    tail >= 1, ring >= 1 (ring 1: a schema that USEs itself)."""
+    names = [f"t{i}" for i in range(tail)] + [f"r{i}" for i in range(ring)]
+    parts = [f"SCHEMA app;\n  {clause} FROM t0 (x);\n  ENTITY holder;\n    content : x;\n  END_ENTITY;\nEND_SCHEMA;\n"]
+    for i, nm in enumerate(names):
+        nxt = names[i + 1] if i + 1 < len(names) else names[tail]
+        body = f"  USE FROM {nxt};\n"
+        if item == "late" and nm == f"r{late_at}":
+            body += "  USE FROM parts;\n"
+        if (item == "early" and nm == "r0") or (item == "tail" and nm == names[tail - 1]):
+            body += "  ENTITY x;\n    name : STRING;\n  END_ENTITY;\n"
+        body += f"  ENTITY e_{nm};\n    v : INTEGER;\n  END_ENTITY;\n"
+        parts.append(f"SCHEMA {nm};\n{body}END_SCHEMA;\n")
+    if item == "late":
+        parts.append("SCHEMA parts;\n  ENTITY x;\n    name : STRING;\n  END_ENTITY;\nEND_SCHEMA;\n")
+    return "".join(parts).encode()
+
+
+def tail_rings():
+    """(tag, data, tail, ring, item)"""
+    out = []
+    for tail in (1, 2, 4):
+        for ring in (1, 2, 3, 7):
+            for item in ("missing", "late", "early", "tail"):
+                for clause in ("REFERENCE", "USE"):
+                    if clause == "USE" and (tail, ring) not in ((1, 2), (2, 3)):
+                        continue
+                    late_at = ring - 1 if item == "late" and ring > 1 and tail == 2 else 0
+                    out.append((f"imports:tail{tail}_ring{ring}:{item}:{clause.lower()}", tail_ring(tail, ring, item, clause, late_at), tail, ring, item))
+    return out
+
